@@ -207,11 +207,14 @@ class Unit:
             self.info.setdefault('harness', {})[harness] = {'roots': roots, 'functions': len(rep['functions']), 'unmodelled_externals': rep['unmodelled'], 'cut_functions': rep.get('cut', []),
                                                             'c_lines': open(g['c']).read().count('\n'), 'gen_s': round(time.time() - t0, 2)}
 
-    def build_real(self):
-        """mode 3: the real code, real libstdc++, ASan+UBSan"""
+    def build_real(self, rsan='address'):
+        """mode 3: the real code, real libstdc++, ASan+UBSan (query option real_san='thread': ThreadSanitizer instead, for
+        queries whose counterexample is a data race between real threads; returns the object file)"""
+        if rsan == 'thread':
+            return self.build_real_tsan()
         with self.lock:
             if self.real_built:
-                return
+                return self.path('real.o')
             cfg = self.cfg
             wrap = os.path.join(self.pdir, cfg['wrap'])
             inc = self.subst_inc() + ['-I' + os.path.join(REPO, 'src'), '-I' + RT]
@@ -221,6 +224,22 @@ class Unit:
             if rc != 0:
                 raise Inconclusive('g++ failed on %s:\n%s' % (wrap, err[-3000:]))
             self.real_built = True
+            return self.path('real.o')
+
+    def build_real_tsan(self):
+        with self.lock:
+            if getattr(self, 'real_tsan_built', False):
+                return self.path('real.tsan.o')
+            cfg = self.cfg
+            wrap = os.path.join(self.pdir, cfg['wrap'])
+            inc = self.subst_inc() + ['-I' + os.path.join(REPO, 'src'), '-I' + RT]
+            flags = ['-std=c++20', '-O1', '-g', '-w', '-DPHOSG_VERIF', '-DVERIF_NATIVE_REAL'] + TSAN + ['-fno-omit-frame-pointer',
+                     '-ffunction-sections', '-fdata-sections'] + list(cfg.get('cxxflags', []))
+            rc, out, err, _, _ = sh(['g++'] + flags + inc + ['-c', wrap, '-o', self.path('real.tsan.o')])
+            if rc != 0:
+                raise Inconclusive('g++ failed on %s:\n%s' % (wrap, err[-3000:]))
+            self.real_tsan_built = True
+            return self.path('real.tsan.o')
 
 
 class Query:
@@ -243,6 +262,8 @@ def build_native(unit, q, work, real):
     hfile = os.path.join(unit.pdir, q.d['harness'])
     mode = ['-DVERIF_NATIVE_REAL'] if real else ['-DVERIF_NATIVE_GEN']
     san = ['-fsanitize=address,undefined', '-fno-sanitize-recover=undefined', '-g'] if real else []
+    if real and q.d.get('real_san') == 'thread':
+        san = TSAN + ['-g']
     ho = exe + '.h.o'
     mo = exe + '.m.o'
     rc, out, err, _, _ = sh(['gcc', '-O1', '-w'] + mode + san + ['-I' + RT, '-I' + unit.pdir] + defs_flags(q.d.get('defs', {})) +
@@ -253,8 +274,8 @@ def build_native(unit, q, work, real):
     if rc != 0:
         raise Inconclusive('gcc failed on native_main.c:\n' + err[-3000:])
     if real:
-        unit.build_real()
-        cmd = ['g++'] + san + ['-Wl,--gc-sections', ho, mo, unit.path('real.o'), '-o', exe, '-lz', '-lpthread', '-lm']
+        ro = unit.build_real(q.d.get('real_san', 'address'))
+        cmd = ['g++'] + san + ['-Wl,--gc-sections', ho, mo, ro, '-o', exe, '-lz', '-lpthread', '-lm']
     else:
         cmd = ['gcc', ho, mo, unit.gen(q.d['harness'])['o'], '-o', exe, '-lm']
     rc, out, err, _, _ = sh(cmd)
@@ -263,6 +284,7 @@ def build_native(unit, q, work, real):
     return exe
 
 
+TSAN = ['-fsanitize=thread']  # query option real_san='thread' (a ThreadSanitizer report makes the run exit 66 = failed)
 NATIVE_ENV = dict(os.environ, ASAN_OPTIONS='detect_leaks=1:abort_on_error=0:exitcode=1', UBSAN_OPTIONS='print_stacktrace=0')
 
 
